@@ -182,7 +182,7 @@ func c17Behaviour(lib *ast.KnowledgeLibrary, keep map[string]bool) string {
 }
 
 func C17(rep *ev.Reporter, tier string) {
-	bud := NewBudget(55 * time.Second)
+	bud := NewBudget(150 * time.Second)
 	docs := c17Docs[:3]
 	if tier == "thorough" {
 		bud = NewBudget(10 * time.Minute)
